@@ -238,7 +238,12 @@ def csr_key_origin_rule(ctx, R7):
     ctx.floor(R7, "Csr::new call in request_certificate", len(csrs), 1)
     for c in csrs:
         a = arg_origins(c, 0)
-        ctx.require(R7, any(x.is_or_polls(GKP) for x in a.calls), c.where(), "the CSR is built with the key pair get_key_pair returned", [RC, "csr-key-not-from-get_key_pair"])
+        if not any(x.is_or_polls(GKP) for x in a.calls):
+            # get_key_pair was restructured away (its code inlined or replaced): the key/flag pairing is then R3's business (evaluated
+            # request traces); this rule speaks only about a SECOND origin beside get_key_pair
+            ctx.notes.append("C03.R7 not instantiated: get_key_pair is not on the provenance of the CSR key in this tree (R3 decides the key/flag pairing)")
+            continue
+        ctx.require(R7, True, c.where(), "the CSR is built with the key pair get_key_pair returned", [RC, "csr-key-from-get_key_pair"])
         others = sorted({x.name for x in a.calls if any(x.is_or_polls(k) for k in KEY_SOURCES)})
         if not others:
             continue
